@@ -10,11 +10,13 @@ using namespace inov;
 static mcx::Report R;
 
 static void part_kick(const std::vector<unsigned>& ns) {
-    for (unsigned n : ns) for (unsigned it = 2; it <= 4; it++) for (int yaxis = 0; yaxis < 2; yaxis++) {
+    for (unsigned n : ns) for (unsigned it = 1; it <= 4; it++) for (int yaxis = 0; yaxis < 2; yaxis++) {
         auto A = alphabet(n);
         // keep the alphabet small enough for pairs: whole, fractional, both signs, the extremes
         std::vector<float> B = {0.f, 1.f, -1.f, 0.25f, -0.75f, 1.5f, -2.3125f, A[5], A[6], 0.99999994f, -5.9604645e-8f, 0.333333343f, -0.707106769f};
         for (size_t a0 = 0; a0 < B.size(); a0++) for (size_t a1 = 0; a1 < B.size(); a1++) {
+            // one-point "interpolation" moves the charge by whole cells only: it follows the particle for whole-cell displacements
+            if (it == 1 && (std::fabs(B[a0] - std::round(B[a0])) > 1e-6f || std::fabs(B[a1] - std::round(B[a1])) > 1e-6f)) continue;
             std::string kase = mcx::Desc()("part", "kick")("n", n)("it", it)("axis", yaxis ? "y" : "x")("a0", a0)("a1", a1).str();
             if (!R.mine(kase)) continue;
             if (R.out_of_time()) { R.not_completed = kase; return; }
@@ -31,7 +33,14 @@ static void part_kick(const std::vector<unsigned>& ns) {
                 off[r0] = B[a0]; if (r0 + 1 < n) off[r0 + 1] = B[a1];
                 km.swapOffset(off);
                 PhaseSpace::Position pos = yaxis ? PhaseSpace::Position{pr, pk} : PhaseSpace::Position{pk, pr};
+                // the main loop moves the particles through applyToAll(): it must do what applyTo() does to each of them
+                std::vector<PhaseSpace::Position> all = {pos, pos};
                 km.applyTo(pos);
+                km.applyToAll(all);
+                if (memcmp(&all[0], &pos, sizeof(pos)) != 0 || memcmp(&all[1], &pos, sizeof(pos)) != 0) {
+                    char d[200]; snprintf(d, 200, "particle (%g along, %g across): applyTo -> (%g, %g), applyToAll -> (%g, %g)", pk, pr, pos.x, pos.y, all[0].x, all[0].y);
+                    R.violate(key + "/applyToAll-differs-from-applyTo/it=" + std::to_string(it), kase, d);
+                }
                 const float got = yaxis ? pos.y : pos.x, across = yaxis ? pos.x : pos.y;
                 R.eval(kase + " p=" + mcx::fstr(pr) + "," + mcx::fstr(pk), mcx::fnv(&got, 4, mcx::fnvs(kase) + ir * 1000 + ik), B[a0] == 0.f && B[a1] == 0.f);
                 if (!std::isfinite(got) || got < 0.f || got > (float)(n - 1) || across != pr) {
@@ -62,7 +71,7 @@ static void part_kick(const std::vector<unsigned>& ns) {
             R.maxnum("worst_particle_vs_centroid", worst);
         }
     }
-    R.bound_done("kick: n x it{2,3,4} x axis x 13x13 offset pairs of the two bracketing rows x every point of the half-cell lattice");
+    R.bound_done("kick: n x it{1 (whole-cell pairs), 2, 3, 4} x axis x 13x13 offset pairs of the two bracketing rows x every point of the half-cell lattice");
 }
 
 static void part_fp(const std::vector<unsigned>& ns, unsigned nseeds, unsigned steps) {
@@ -148,7 +157,7 @@ static void part_chain(const std::vector<unsigned>& ns, unsigned steps) {
             din[ykick ? (size_t)r0 * n + c0 : (size_t)c0 * n + r0] = 1.f;
             PhaseSpace::Position pos = ykick ? PhaseSpace::Position{(float)r0, (float)c0} : PhaseSpace::Position{(float)c0, (float)r0};
             for (unsigned k = 0; k < steps; k++) {
-                m->apply(); m->applyTo(pos);
+                { std::vector<PhaseSpace::Position> one = {pos}; m->apply(); m->applyToAll(one); pos = one[0]; }   // as the main loop does
                 const float* o = out->getData(); double q = 0, mo = 0;
                 for (unsigned c = 0; c < n; c++) { double v = o[ykick ? (size_t)r0 * n + c : (size_t)c * n + r0]; q += v; mo += v * c; }
                 const double cen = mo / q, got = ykick ? pos.y : pos.x;
